@@ -44,11 +44,22 @@ def _circle_ok(kind, p, adj):
 
 def gen_problem(rng, tier):
     h, w = rng.choice(_SHAPES)
-    mode = rng.random()
+    return _gen(rng, h, w)
+
+
+def extra_program_problems(rng):
+    """Larger boards for the program correspondence only (nothing is enumerated there): one non-square medium board and two
+    with more than 256 cells (a tall and a wide one); the circles are read off a random loop
+    (`_loop.random_loop`)."""
+    return [_gen(rng, h, w, _loop.random_loop(rng, h, w, rng.choice([0.3, 0.6]))) for h, w in _loop.big_shapes(rng)]
+
+
+def _gen(rng, h, w, a=None):
+    mode = rng.random() if a is None else 0.0
     pb = [[0] * w for _ in range(h)]
     if mode < 0.7:
-        loops = _loop.single_loops(h, w)
-        a = rng.choice(loops)
+        if a is None:
+            a = rng.choice(_loop.single_loops(h, w))
         es = _loop.active_edges(a, h, w)
         adj = _loop.neighbours_on_loop(es)
         keep = rng.choice([0.2, 0.5, 1.0])
